@@ -8,7 +8,7 @@ LENGTHS_AND_CHECKSUMS = {'checksum', 'tot_len', 'length', 'head_len', 'data_offs
 ICMP_UNION = {'gateway', 'id', 'pointer', 'mtu', 'sequence', 'identifier', 'reachable_time'}
 TAGS = {'eth_type', 'protocol', 'payload_type', 'next_header', 'family', 'type'}
 # getters that expose a cache libtins fills while serialising (derived from the option list): not part of the view
-DERIVED_CACHES = {('DHCP', 'vend')}
+DERIVED_CACHES = {('DHCP', 'vend'), ('Dot1Q', 'append_padding')}
 
 
 def split_layers(view):
@@ -35,7 +35,7 @@ def judge(lines, lh):
     p2, q = strip(p2), strip(q)
     # minimum-frame padding is derived: below an Ethernet layer, zero bytes appended to the innermost payload up to the
     # 46-byte minimum do not count (and an all-zero payload that appears there counts as no payload)
-    if any(x.split(' ')[0] in ('EthernetII', 'Dot3') for x in p2):
+    if any(x.split(' ')[0] in ('EthernetII', 'Dot3', 'Dot1Q') for x in p2):
         def payload(ls):
             return ls[-1].split(' ')[1][len('payload=x'):] if ls and ls[-1].startswith('RawPDU payload=x') else None
         pp, qp = payload(p2), payload(q)
@@ -78,7 +78,9 @@ def judge(lines, lh):
                 break
     s1, s2 = lh[1].split(), lh[4].split()
     payload_nonempty = 'RawPDU payload=x' in lh[2] and 'RawPDU payload=x payload_size=0' not in lh[2]
-    if not bad and s2[0] == 'S2' and payload_nonempty and s1[2] != s2[2]:
+    eth = any(x.split(' ')[0] in ('EthernetII', 'Dot3', 'Dot1Q') for x in p2)
+    same = s1[2] == s2[2] or (eth and len(s1) > 2 and len(s2) > 2 and re.sub(r'(00)+$', '', s1[2]) == re.sub(r'(00)+$', '', s2[2]) and max(len(s1[2]), len(s2[2])) <= 1 + 2 * 68)
+    if not bad and s2[0] == 'S2' and payload_nonempty and not same:
         bad.append('second serialization differs from the first: %s vs %s' % (s1[2][:120], s2[2][:120]))
     return bad
 
@@ -110,6 +112,9 @@ def run(ctx):
     for j in range(1500 if quick else 30000):
         e, b = hv[rng.randrange(len(hv))]
         scripts.append(('hm%d' % j, ['parse %s x%s' % (e, PC.mutate(rng, b).hex()), 'ser', 'view', 'rt ' + e]))
+    pairs = [c for c in corp if len(c[2].get('stack', [])) == 2 and not c[2].get('fields')]
+    for j, (ecls, y, meta, _) in enumerate(pairs):
+        scripts.append(('pp%d' % j, ['parse %s x%s' % (ecls, y.hex()), 'ser', 'view', 'rt ' + ecls]))
     for i in range(3000 if quick else 50000):
         ecls, y, meta, _ = corp[rng.randrange(len(corp))]
         r = rng.random()
